@@ -1,5 +1,5 @@
 /-
-Helper lemmas for C14, part 8: phenotype tables with missing values (`Pheno.colMeansNan`, `Pheno.meanBVNan`).
+Helper lemmas for C14, part 8: phenotype tables with missing values (`Pheno.colMeansNan`, `Pheno.meanBVNanPrerepair`).
 -/
 import PybropsModel.Lemmas.PhenoBV
 set_option autoImplicit false
@@ -35,8 +35,8 @@ def meanOrMissingNan (t : Nat) (recs : List (Rec L G (Option α))) (name : L) : 
 
 theorem meanBVNan_eq (le : (L × Option G) → (L × Option G) → Bool) (useGrp : Bool) (t : Nat)
     (recs : List (Rec L G (Option α))) (hk : KeyByName useGrp recs) (gtTaxa : List L) :
-    meanBVNan le useGrp t recs gtTaxa = gtTaxa.map (meanOrMissingNan t recs) := by
-  unfold meanBVNan
+    meanBVNanPrerepair le useGrp t recs gtTaxa = gtTaxa.map (meanOrMissingNan t recs) := by
+  unfold meanBVNanPrerepair
   apply List.map_congr_left
   intro name _
   unfold meanOrMissingNan recordsOf
@@ -104,11 +104,11 @@ theorem groupRows_lift (useGrp : Bool) (recs : List (Rec L G α)) (k : L × Opti
 /-- **conservative extension**: on a table without missing values the NaN-aware estimate is the plain one -/
 theorem meanBVNan_lift (le : (L × Option G) → (L × Option G) → Bool) (useGrp : Bool) (t : Nat)
     (recs : List (Rec L G α)) (hlen : ∀ r ∈ recs, r.vals.length = t) (gtTaxa : List L) :
-    meanBVNan le useGrp t (recs.map liftRec) gtTaxa =
-      (meanBV le useGrp t recs gtTaxa).map (fun o => match o with
+    meanBVNanPrerepair le useGrp t (recs.map liftRec) gtTaxa =
+      (meanBVPrerepair le useGrp t recs gtTaxa).map (fun o => match o with
         | none => List.replicate t none
         | some row => row.map some) := by
-  unfold meanBVNan meanBV
+  unfold meanBVNanPrerepair meanBVPrerepair
   rw [List.map_map]
   apply List.map_congr_left
   intro name _
